@@ -79,7 +79,7 @@ def gen_trajectory(rng, cubic):
 
 def run(ctx, rep):
     rng = ctx.rng
-    rep.rule = ("trajectories with 1-4 columns and 1-4 NaN-separated segments (lengths 0,7..30), rational samples (exact in binary64), cubic and "
+    rep.rule = ("trajectories with 1-4 columns and 1-4 segments (lengths 0,7..30) separated by rows with a NaN in all or only some columns, rational samples (exact in binary64), cubic and "
                 "arbitrary; unit impulses for the weights; random equations x scale factors for the fitness; distinct = distinct inputs; "
                 "non-trivial = at least one retained row")
     rep.assumptions = ["binary64 evaluation of the Gram-polynomial weights and of the convolution agrees with exact rationals to 1e-9 (validated)"]
